@@ -428,7 +428,9 @@ func ParseRange(s string) (start, end int64, ok bool) {
 	}
 	p0, err0 := strconv.ParseInt(p0s, 10, 64)
 	p1, err1 := strconv.ParseInt(p1s, 10, 64)
-	if p1 > 0 {
+	if p1 > 0 || p0 > 0 {
+		// Note: "0-0" remains ambiguous: it's both the inclusive form
+		// of the first byte and how the empty range is written.
 		p1++
 	}
 	return p0, p1, err0 == nil && err1 == nil
